@@ -221,6 +221,9 @@ class RegionMask:
                 weighted_cutout = cutout * self.data
 
             # fill values outside of the mask but within the bounding box
+            if isinstance(weighted_cutout, u.Quantity):
+                # as in cutout(), the fill value is in the data units
+                fill_value = fill_value << weighted_cutout.unit
             weighted_cutout[self._mask] = fill_value
 
             return weighted_cutout
